@@ -35,6 +35,11 @@ def repo_key(tier: str) -> str:
     return h.hexdigest()[:20]
 
 
+def ir_by_function(snap) -> dict:
+    """The IR of the analysis phase (before result generation), order-free: id -> accesses and call records with targets."""
+    return {e["id"]: {"gets": e["gets"], "sets": e["sets"], "dels": e["dels"], "calls": sorted(repr(c) for c in e["calls"])} for e in snap}
+
+
 def graphs(rng: random.Random, tier: str):
     n_rand, n_tree = (60, 70) if tier == "quick" else (1500, 1500)
     out = [(nm, defs, "fixed") for nm, defs in R.FIXED_GRAPHS.items()]
@@ -83,7 +88,7 @@ def run(tier: str) -> dict:
                                   "ir_before": [{k: e[k] for k in ("id", "gets", "sets", "dels")} for e in run_["before"]],
                                   "ir_after": [{k: e[k] for k in ("id", "gets", "sets", "dels")} for e in run_["after"]],
                                   "raised": run_["raised"], "diagnostics": run_["simplification_diagnostics"]})
-                    variants.append((f"order {order}", run_["results"], run_["results2"]))
+                    variants.append((f"order {order}", run_["results"], run_["results2"], ir_by_function(run_["before"])))
                 # unrelated definitions: functions nobody in the program calls (they may call into it)
                 extra = [("unrel1", f"def unrel1(z):\n    z.unrelated\n    {defs[0][0]}(z)\n"), ("unrel2", "def unrel2(w):\n    return w.other\n")]
                 for label, defs2 in (("with unrelated definitions appended", defs + extra), ("with unrelated definitions first", extra + defs)):
@@ -94,7 +99,7 @@ def run(tier: str) -> dict:
                     metas.append({"program": name, "kind": kind, "variant": label, "source": R.module_source(defs2),
                                   "results": run_["results"], "results_second_generation": None,
                                   "ir_before": [], "ir_after": [], "raised": run_["raised"], "diagnostics": run_["simplification_diagnostics"]})
-                    variants.append((label, run_["results"], None))
+                    variants.append((label, run_["results"], None, ir_by_function(run_["before"])))
                 perm_groups.append({"program": name, "kind": kind, "definitions": [d[1] for d in defs], "variants": variants})
         finally:
             sys.path[0] = old_path0
